@@ -2,7 +2,9 @@
 
 SAFETY_KINDS = {"defined", "attr_defined", "div_nonzero", "log_positive", "pow_base_nonneg", "index", "assert", "raise_unreachable",
                 "argwhere_witness", "sqrt_nonneg", "alloc_nonneg", "variant", "variant_missing", "int_of_integral", "return_shape"}
-SUPPORT_KINDS = {"inv_init", "inv_pres", "call_requires", "count_mask_sorted"}
+# proof steps that every property relying on the function needs (the assert half of assert/havoc/assume cuts, loop-entry and
+# loop-body assertions, invariants, call-site preconditions, sortedness side conditions): always registered with the function
+SUPPORT_KINDS = {"inv_init", "inv_pres", "call_requires", "count_mask_sorted", "cut_assert", "init_assert", "pres_assert"}
 
 PROPS = {
     "C17": dict(
@@ -14,8 +16,9 @@ PROPS = {
                     "on the real loop-free function; loop-free symbolic execution over fully symbolic inputs is unbounded",
         trusted_base=[],
     ),
-    "C01": dict(lemmas=True, bounded=dict(module="water_monitors.py", args=["--property", "C01"]), functions=["pre_irrigation", "drainage", "infiltration", "capillary_rise", "groundwater_inflow", "soil_evaporation", "transpiration", "solution_single_time_step"], level="proof",
-                explanation="per-process mass contracts: loop invariants over the spec sum wsum (storage), closed with the lemma library", trusted_base=[]),
+    "C01": dict(lemmas=True, bounded=dict(module="water_monitors.py", args=["--property", "C01"]), functions=["pre_irrigation", "drainage", "infiltration", "capillary_rise", "groundwater_inflow", "soil_evaporation", "transpiration", "solution_single_time_step", "update_time", "reset_initial_conditions#body"], level="proof",
+                explanation="per-process mass contracts: loop invariants over the spec sum wsum (storage), closed with the lemma library; the daily step composes them into the "
+                            "balance of the reported row; between days update_time carries water content and ponding unchanged unless a season starts", trusted_base=[]),
     "C02": dict(bounded=dict(module="water_monitors.py", args=["--property", "C02"]), functions=["rainfall_partition", "infiltration", "solution_single_time_step"], level="proof",
                 explanation="partition identities and runoff bounds as postconditions of rainfall_partition and infiltration", trusted_base=[]),
     "C03": dict(lemmas=True, bounded=[dict(module="water_monitors.py", args=["--property", "C03"]), dict(module="soil_assumptions.py")], functions=["pre_irrigation", "drainage", "infiltration", "capillary_rise", "groundwater_inflow", "root_zone_water", "soil_evaporation", "evap_layer_water_content", "transpiration", "rainfall_partition", "solution_single_time_step"], level="proof",
@@ -26,13 +29,16 @@ PROPS = {
                 explanation="per-strategy postconditions of irrigation(), callee contract of root_zone_water", trusted_base=[]),
     "C19": dict(bounded=dict(module="water_monitors.py", args=["--property", "C19"]), functions=["check_groundwater_table", "capillary_rise", "groundwater_inflow", "solution_single_time_step"], level="proof",
                 explanation="adjusted field capacity range / far table / saturation below the table / no table => zero fluxes", trusted_base=[]),
-    "C05": dict(functions=["growing_degree_day", "cc_development", "biomass_accumulation", "HIref_current_day", "HIadj_pre_anthesis", "HIadj_pollination", "HIadj_post_anthesis", "harvest_index", "canopy_cover", "germination", "transpiration", "solution_single_time_step"], level="proof", safety=True,
+    "C05": dict(functions=["growing_degree_day", "cc_development", "biomass_accumulation", "HIref_current_day", "HIadj_pre_anthesis", "HIadj_pollination", "HIadj_post_anthesis", "harvest_index", "canopy_cover", "germination", "transpiration", "solution_single_time_step", "calculate_HIGC", "calculate_HI_linear", "root_development#body"], level="proof", safety=True,
                 bounded=dict(module="water_monitors.py", args=["--property", "C05"]),
-                explanation="E1: degree-day range and canopy-curve range clauses; the canopy/root/harvest-index envelopes are served by the BOUNDED monitors only so far"),
+                explanation="E1: degree-day range and accumulation, canopy envelope, biomass monotone, harvest index <= reference and adjusted index <= reference x allowed increase, "
+                            "reference harvest index non-decreasing in adjusted time (two-copy obligation), zeros out of season; root-depth envelope and the day-to-day chaining of the "
+                            "stored harvest index are served by the BOUNDED monitors"),
     "C06": dict(functions=["biomass_accumulation", "HIref_current_day", "transpiration", "canopy_cover", "solution_single_time_step"], level="proof",
                 bounded=dict(module="water_monitors.py", args=["--property", "C06"]),
-                explanation="per-step yield algebra and seasonal irrigation accumulation as postconditions of the daily step over the callee contracts; "
-                            "summary rows (one per harvested season, in order) monitored by the BOUNDED stand-in only so far"),
+                explanation="per-step yield algebra and seasonal irrigation accumulation as postconditions of the daily step over the callee contracts; the summary row is written "
+                            "exactly when the harvest flag is raised (at index season_counter, once per season) and repeats that day's yields, step, end date and the seasonal "
+                            "irrigation counter; the run-level induction (one row per harvested season, in order; counter == sum of the daily column) is monitored by the BOUNDED stand-in"),
     "C12": dict(functions=["pre_irrigation", "drainage", "infiltration", "capillary_rise", "groundwater_inflow", "root_zone_water", "soil_evaporation", "evap_layer_water_content", "rainfall_partition", "irrigation", "check_groundwater_table", "transpiration", "harvest_index", "canopy_cover", "germination", "growth_stage", "solution_single_time_step"], level="proof", frame=True,
                 store_scan=lambda area, kind: area in ("solution", "timestep"), bounded=dict(module="c12_readonly.py"),
                 explanation="assigns (frame) obligations: every store of a process function hits a fresh array or a location its contract's assigns clause names; "
@@ -45,7 +51,7 @@ PROPS = {
                 trusted_base=["AquaCropModel._perform_timestep: abstract deterministic step (assumed; frame/determinism shared with C10)"]),
     "C07": dict(functions=["germination", "HIref_current_day", "solution_single_time_step", "check_model_is_finished", "update_time", "AquaCropModel._perform_timestep#body", "AquaCropModel.run_model"], level="other", bounded=dict(module="c07_schedule.py"),
                 explanation="BOUNDED: schedule produced by the pandas initialisers and whole-run calendar facts checked on an enumerated lattice of windows / planting dates / crops"),
-    "C16": dict(functions=['growing_degree_day', 'water_stress', 'temperature_stress', 'aeration_stress', 'cc_development', 'cc_required_time', 'drainage', 'pre_irrigation', 'rainfall_partition', 'root_zone_water', 'irrigation', 'infiltration', 'check_groundwater_table', 'capillary_rise', 'groundwater_inflow', 'evap_layer_water_content', 'soil_evaporation', 'transpiration', 'germination', 'growth_stage', 'canopy_cover', 'HIref_current_day', 'HIadj_pre_anthesis', 'HIadj_pollination', 'HIadj_post_anthesis', 'harvest_index', 'biomass_accumulation', 'solution_single_time_step', 'check_model_is_finished', 'update_time', 'AquaCropModel._perform_timestep#body', 'AquaCropModel.run_model', 'calculate_HIGC', 'calculate_HI_linear'], level="other", safety=True, crosscheck=True, catalogue=True, bounded=[dict(module="c16_completion.py"), dict(module="soil_assumptions.py"), dict(module="deepening.py")],
+    "C16": dict(functions=['growing_degree_day', 'water_stress', 'temperature_stress', 'aeration_stress', 'cc_development', 'cc_required_time', 'drainage', 'pre_irrigation', 'rainfall_partition', 'root_zone_water', 'irrigation', 'infiltration', 'check_groundwater_table', 'capillary_rise', 'groundwater_inflow', 'evap_layer_water_content', 'soil_evaporation', 'transpiration', 'germination', 'growth_stage', 'canopy_cover', 'HIref_current_day', 'HIadj_pre_anthesis', 'HIadj_pollination', 'HIadj_post_anthesis', 'harvest_index', 'biomass_accumulation', 'solution_single_time_step', 'check_model_is_finished', 'update_time', 'AquaCropModel._perform_timestep#body', 'AquaCropModel.run_model', 'calculate_HIGC', 'calculate_HI_linear', 'reset_initial_conditions#body', 'root_development#body'], level="other", safety=True, crosscheck=True, catalogue=True, bounded=[dict(module="c16_completion.py"), dict(module="soil_assumptions.py"), dict(module="deepening.py")],
                 explanation="E1: the safety obligations (definite assignment, non-zero divisors, positive log arguments, non-negative power bases, index bounds, asserts, "
                             "unreachable raises, loop variants) of every function under contract, under the documented flag values; "
                             "BOUNDED: pairwise-covering enumeration of the configuration catalogue for the initialisers and the combination space"),
@@ -69,9 +75,11 @@ PROPS = {
                 explanation="E1: the real body of reset_initial_conditions resets every season-state field to the value a fresh run starts from (counters, flags, factors, "
                             "crop-dependent values, aeration counters, potential fluxes), restores the configured water content from a PRIVATE copy (th is not thini) and the "
                             "initial ponding; update_time calls it exactly when a season starts; BOUNDED: season k of a multi-season run vs a fresh single-season run, bitwise"),
-    "C20": dict(functions=["rainfall_partition", "irrigation", "infiltration", "soil_evaporation"], level="other", bounded=dict(module="c20_inert.py"),
+    "C20": dict(functions=["rainfall_partition", "irrigation", "infiltration", "soil_evaporation", "solution_single_time_step"], level="other", bounded=dict(module="c20_inert.py"),
                 explanation="E1: read-guards (a parameter of a switched-off feature is never read): bund height without bunds, curve-number percentage under inhibited runoff, "
                             "strategy parameters of other strategies, efficiency out of season, mulch parameters without mulches, wetted fraction without irrigation; "
+                            "neutral values: irrigation applies nothing at daily/seasonal maximum 0, depth 0 or an empty schedule day (function and reported row); the mulch-adjusted "
+                            "potential evaporation equals the unadjusted one at cover 0 or factor 0 (cut assertion where the only reads of the mulch parameters occur); "
                             "BOUNDED: base-vs-transformed whole-run comparison incl. neutral values and the explicit default harvest date"),
 }
 
